@@ -151,7 +151,7 @@ class Evaluator:
             return v
         if v is None:
             return False
-        if isinstance(v, (int, float, str, tuple, list, dict, set, frozenset, bytes, range)) or type(v).__name__ in ("dict_keys", "dict_values", "dict_items"):
+        if isinstance(v, (int, float, str, tuple, list, dict, set, frozenset, bytes, range)) or type(v).__name__ in ("dict_keys", "dict_values", "dict_items", "deque"):
             return bool(v)
         if isinstance(v, _re.Match):
             return True
